@@ -48,7 +48,7 @@ class C18(Prop):
         "cMarkov0_spec", "xMarkov0_spec", "cMarkov1_spec", "xMarkov1_spec",
         "shuffleDP_ok", "cShuffleDP_ok", "xShuffleDP_ok", "dpWalk_edges_once",
         "shuffleDP_checks_never_fire", "shuffleDP_spec", "cShuffleDP_status", "xShuffleDP_status",
-        "vShuffle_spec", "qrna_keeps_classes", "qrna_class_perm")]
+        "vShuffle_spec", "vShuffle_inplace_eq", "qrna_keeps_classes", "qrna_class_perm")]
     claimed = True
     technique = ("Lean 4 proof (Fisher-Yates/swap-loop invariants, permutation and support theorems for every generator state) + "
                  "exact differential correspondence of the executable model (on the C09 generator model) with the ASan/UBSan-built C code + python property monitors on the C output")
@@ -264,7 +264,7 @@ class C18(Prop):
 
     def cases(self, ctx):
         rng = ctx.rng
-        n = 12000 if ctx.tier == "quick" else 120000
+        n = 10000 if ctx.tier == "quick" else 120000
         out = []
         for c in range(n):
             seed = rng.choice([1, 2, 3, 42, 0x7fffffff, 0x80000000, 0xffffffff, rng.randrange(1, 1 << 32), rng.randrange(1, 1 << 32), rng.randrange(1, 1 << 32)])
